@@ -202,7 +202,7 @@ def run_include(ctx, U, s, ext, cfg, hostile):
 LOAD_PATHS = ('default', 'rel_lib', 'q_lib', 'abs', 'env')
 
 
-def run_require(ctx, U, s, lp, hostile, form=None, literal=None):
+def run_require(ctx, U, s, lp, hostile, form=None, literal=None, home=None):
     """literal: the bytes to put between the quotes of the string literal when they are not simply s (escapes, raw high bytes);
     s then only labels the case."""
     from pico8 import tool
@@ -247,6 +247,9 @@ def run_require(ctx, U, s, lp, hostile, form=None, literal=None):
     os.environ.pop('PICO8_LUA_PATH', None)
     if env_path:
         os.environ['PICO8_LUA_PATH'] = env_path
+    old_home = os.environ.get('HOME')
+    if home:
+        os.environ['HOME'] = home
     err = None
     rcode = None
     old_cwd = os.getcwd()
@@ -266,6 +269,11 @@ def run_require(ctx, U, s, lp, hostile, form=None, literal=None):
                 err = e
     finally:
         os.chdir(old_cwd)
+        if home:
+            if old_home is None:
+                os.environ.pop('HOME', None)
+            else:
+                os.environ['HOME'] = old_home
         os.environ.pop('PICO8_LUA_PATH', None)
         if old is not None:
             os.environ['PICO8_LUA_PATH'] = old
@@ -287,6 +295,47 @@ def run_require(ctx, U, s, lp, hostile, form=None, literal=None):
         ctx.violation('require("%s") with load path %s (%s fs) opened %s, outside %s' % (
             s, lp, 'hostile' if hostile else 'real', sorted({os.path.relpath(p, U) for p, m in outp}),
             [os.path.relpath(r, U) for r in roots]), case, key=classify_require(s, outp))
+
+
+def nested_require(ctx, U, hostile):
+    from pico8 import tool
+    root = os.path.join(U, 'root')
+    main = os.path.join(root, 'main_nested.lua')
+    out = os.path.join(root, 'out_nested.p8')
+    inner = os.path.join(root, 'sub', 'nest_pkg.lua')
+    only_main_dir = os.path.join(root, 'only_next_to_main.lua')
+    for lp in ('default', 'rel_lib'):
+        with open(main, 'wb') as fh:
+            fh.write(b'require("sub/nest_pkg")\n')
+        with open(inner, 'wb') as fh:
+            fh.write(b'require("only_next_to_main")\n')
+        with open(only_main_dir, 'wb') as fh:
+            fh.write(b'marker("root/only_next_to_main.lua")\n')
+        argv = [ambient.vflag(), 'build', out, '--lua', main] + (['--lua-path', 'lib/?.lua;?.lua'] if lp == 'rel_lib' else [])
+        case = {'kind': 'require', 'string': 'only_next_to_main (from sub/nest_pkg.lua)', 'load_path': lp, 'hostile': hostile}
+        ctx.case(('nested-require', lp, hostile), nontrivial=True)
+        try:
+            with fsmon.Watch(U, [root], hostile) as w:
+                try:
+                    tool.main(argv)
+                except BaseException:
+                    pass
+        finally:
+            for f in (main, out, inner, only_main_dir):
+                if os.path.exists(f):
+                    os.remove(f)
+        ctx.monitor('require_builds')
+        if not any(p == fsmon._norm(inner) for p, m in w.events):
+            ctx.inconclusive_because('audit hook did not see the legitimate open of the nested package file')
+            return
+        ctx.monitor('legitimate_opens_seen')
+        ctx.feature('nested_require_from_subdirectory')
+        bad = [p for p, m in w.events if p == fsmon._norm(only_main_dir)]
+        if bad:
+            ctx.violation('require("only_next_to_main") inside root/sub/nest_pkg.lua (load path %s, %s fs) opened root/only_next_to_main.lua, '
+                          'which is neither under the requiring file\'s directory root/sub nor under a load path directory' % (
+                              lp, 'hostile' if hostile else 'real'), case)
+            return
 
 
 def poison(ctx, U):
@@ -383,6 +432,16 @@ def run_shard(spec, ctx):
                             run_require(ctx, U, repr(pre + ap), lp, hostile, literal=pre + ap)
                             run_require(ctx, U, repr(pre + b'../x'), lp, hostile, literal=pre + b'../x')
                         ctx.feature('strings_with_undecodable_bytes')
+                # (d) strings a shell would expand: the home directory is not one of the permitted directories
+                for s_ in ('~/x', '~/sub/x', '~', '~/', '~/../outside/x', '~/.lexaloffle/pico-8/carts/game/x'):
+                    for lp in LOAD_PATHS:
+                        run_require(ctx, U, s_, lp, hostile, form='paren', home=os.path.join(U, 'home'))
+                    for cfg in ('plain', 'subdir'):
+                        run_include(ctx, U, s_, '.lua', cfg, hostile)
+                    ctx.feature('strings_with_tilde')
+                # (e) a package in a sub-directory requires a module that only the MAIN file's directory has: the permitted
+                # directories of a nested require() are those of the requiring file
+                nested_require(ctx, U, hostile)
             ctx.feature('links_done')
             return
         if spec['kind'] == 'absolute':
@@ -451,7 +510,7 @@ def gates(m, tier):
     N = 3 if tier == 'quick' else 4
     if f.get('strings_enumerated', 0) != len(strings(N)):
         missed.append('strings enumerated %d of %d' % (f.get('strings_enumerated', 0), len(strings(N))))
-    for k in ('main_named_bare', 'main_named_relative', 'cart_named_bare', 'cart_named_relative', 'links_done', 'strings_through_directory_links', 'strings_with_backslash_separators', 'strings_with_undecodable_bytes', 'sequences_done', 'failed_load_before_case', 'failed_build_before_case', 'include_cfg:subdir', 'absolute_paths_done', 'hostile', 'real_fs', 'include_cfg:plain', 'include_cfg:carts', 'include_cfg:carts2', 'include_rejected',
+    for k in ('strings_with_tilde', 'nested_require_from_subdirectory', 'main_named_bare', 'main_named_relative', 'cart_named_bare', 'cart_named_relative', 'links_done', 'strings_through_directory_links', 'strings_with_backslash_separators', 'strings_with_undecodable_bytes', 'sequences_done', 'failed_load_before_case', 'failed_build_before_case', 'include_cfg:subdir', 'absolute_paths_done', 'hostile', 'real_fs', 'include_cfg:plain', 'include_cfg:carts', 'include_cfg:carts2', 'include_rejected',
               'include_loaded', 'require_rejected', 'require_built') + tuple('load_path:' + l for l in LOAD_PATHS):
         if f.get(k, 0) < 1:
             missed.append('%s never seen' % k)
